@@ -14,6 +14,7 @@ import (
 	"path/filepath"
 	"regexp"
 	"runtime"
+	"runtime/debug"
 	"strconv"
 	"strings"
 	"sync"
@@ -516,6 +517,7 @@ func c10WebMultiPhase(e *c10WebEnv) {
 	// one P: what a later session does to process-wide pools / scratch memory then reaches the earlier
 	// session deterministically (the other phases run with all Ps)
 	defer runtime.GOMAXPROCS(runtime.GOMAXPROCS(1))
+	defer debug.SetGCPercent(debug.SetGCPercent(-1)) // a collection would empty sync.Pools between the sessions
 	A := e.server(0)
 	if A == nil {
 		return
